@@ -204,7 +204,10 @@ def tlc(module, cfg, work, workers=1, env=None, timeout=3600, coverage=False, si
     meta = os.path.join(work, "meta_" + cfg.replace(".cfg", "") + "_" + hashlib.sha1(
         json.dumps([module, cfg, sorted((env or {}).items())]).encode()).hexdigest()[:8])
     shutil.rmtree(meta, ignore_errors=True)
-    jopts = ["-XX:+UseParallelGC", "-Xss1g"]
+    # TLC creates a scratch directory under java.io.tmpdir for every run: keep it inside the check's work directory
+    jtmp = os.path.join(work, "jtmp")
+    os.makedirs(jtmp, exist_ok=True)
+    jopts = ["-XX:+UseParallelGC", "-Xss1g", f"-Djava.io.tmpdir={jtmp}"]
     if xmx:
         jopts.append(f"-Xmx{xmx}")
     if depth_first:
